@@ -187,7 +187,7 @@ fn roundtrip_case(src: &mut Src, ctx: &mut Ctx) -> Result<(), String> {
     }
     ctx.sample("gridded-layout library", || {
         let mut s = format!("{:?}", m);
-        s.truncate(1200);
+        crate::engine::clip(&mut s, 1200);
         s
     });
     let back = ProtoLibImporter::import(&plib).map_err(|e| format!("import of the exported library failed: {:?}", e))?;
